@@ -43,6 +43,7 @@ deriving Repr
 structure State where
   seq    : Nat
   closed : Bool
+  clflag : Bool           -- `writingFrame.Closing ≠ closingNothing`: set by `closeStream`, never reset
   lock   : Option Nat
   enc    : List Frame     -- numbers consumed, in the order of the `Seq++` steps
   wire   : List Frame     -- frames handed to a connection successfully
@@ -68,7 +69,10 @@ def step (s : State) (t : Nat) : Option State :=
     | .cas :: p =>
       if s.closed then some (abort s t)
       else some { s with closed := true, thr := s.thr.set t { th with prog := p } }
-    | .enc cl pl :: p => some { s with thr := s.thr.set t ⟨p, some ⟨s.seq, cl, pl, t⟩, true⟩ }
+    | .enc cl pl :: p =>
+      -- `Close` sets `writingFrame.Closing = closingStream` right before its encode; the field is shared, so a
+      -- `ReadFrom` chunk that passed its closed-test earlier and is encoded afterwards carries the flag too
+      some { s with clflag := cl || s.clflag, thr := s.thr.set t ⟨p, some ⟨s.seq, cl || s.clflag, pl, t⟩, true⟩ }
     | .inc :: p =>
       match th.cur, th.pend with
       | some f, true => some { s with seq := s.seq + 1, enc := s.enc ++ [f], thr := s.thr.set t ⟨p, some f, false⟩ }
@@ -89,7 +93,7 @@ def runSched (s : State) : List Nat → State
     | none => runSched s ts          -- a pick that is not enabled is a no-op
 
 def init (progs : List (List Instr)) : State :=
-  ⟨0, false, none, [], [], progs.map (fun p => ⟨p, none, false⟩)⟩
+  ⟨0, false, false, none, [], [], progs.map (fun p => ⟨p, none, false⟩)⟩
 
 /-- a new call starts (a goroutine enters `Write`/`ReadFrom`/`Close`) -/
 def spawn (s : State) (p : List Instr) : State := { s with thr := s.thr ++ [⟨p, none, false⟩] }
